@@ -35,3 +35,21 @@ Theorem C03_circuit_settles : forall delays cap ops (e : wenv),
             init_val (wexec delays cap ops e k) = bexec ops (fun j => init_val (e j)) k /\
             final_val (wexec delays cap ops e k) = bexec ops (fun j => final_val (e j)) k.
 Proof. exact KV.Proofs.WaveCircuit.wave_circuit_settles. Qed.
+
+(** FLAT WAVEFORM MEMORY (Proofs/WaveFlat.v): c_prop on the memory addressed through c_locs / c_caps refines the line-level
+    semantics.  [regions_ok so P n]: every op reads and writes tracked indices (P), its output region lies inside the memory of
+    length n and is disjoint from the region of every OTHER tracked index (what the allocator guarantees without c_reuse;
+    evaluated per generated case by [regions_ok_b]).  Then c_prop is total, the region of every tracked index read up to its
+    terminator is the line-level waveform, and abuf is the line-level accumulation [wacc]. *)
+From KV Require Import Model.WaveSimModel Model.WaveAcc.
+From KV Require Proofs.WaveFlat.
+Theorem C03_flat_refines : forall so delays actrl (P : nat -> Prop) (m : wmem) ab,
+  regions_ok so P (length m) ->
+  exists m' ab', w_c_prop so delays actrl m ab = Some (m', ab') /\ length m' = length m /\
+    (forall k, P k -> upto_end (operand so m' k) = wexec (dl_of delays) (capN so) (so_ops so) (env_of so m) k) /\
+    ab' = wacc (dl_of delays) (capN so) actrl (so_ops so) (env_of so m) ab.
+Proof. exact KV.Proofs.WaveFlat.flat_refines. Qed.
+
+Theorem C03_regions_check_sound : forall so n memlen,
+  regions_ok_b so n memlen = true -> regions_ok so (fun k => k < n) memlen.
+Proof. exact KV.Proofs.WaveFlat.regions_ok_b_sound. Qed.
